@@ -34,15 +34,17 @@ Ltac ff_split W :=
   clear W.
 
 (* ---------- accepted verdicts ---------- *)
-Lemma verdict_code c t p d c' t' p' d' : verdict c t p d = verdict c' t' p' d' -> c = c'.
-Proof. intro H. apply verdict_inj in H. tauto. Qed.
+(* the right-hand side is any list with head c': the per-operation theorems are also used for the steps
+   of an op-11 history, where the verdict of a step is only known as c :: v *)
+Lemma verdict_code c t p d c' v : verdict c t p d = c' :: v -> c = c'.
+Proof. unfold verdict. intro H. injection H. auto. Qed.
 (* closes a goal whose hypothesis H says that a MISMATCH / MALFORMED verdict has code 0 or 1 *)
 Ltac rejected H :=
   exfalso; apply verdict_code in H; unfold V_MISMATCH, V_MALFORMED in H; lia.
 
 (* the common tail "match w with None => OK | Some k => MISMATCH" *)
-Lemma ok_or_mismatch (w : option Z) t (f g : Z -> Z) (h : Z -> list Z) c tag pos diag :
-  match w with None => verdict V_OK t (-1) [] | Some k => verdict V_MISMATCH (f k) (g k) (h k) end = verdict c tag pos diag ->
+Lemma ok_or_mismatch (w : option Z) t (f g : Z -> Z) (h : Z -> list Z) c v :
+  match w with None => verdict V_OK t (-1) [] | Some k => verdict V_MISMATCH (f k) (g k) (h k) end = c :: v ->
   c = 0 \/ c = 1 -> w = None /\ c = 0.
 Proof.
   intros H Hc. destruct w as [k|].
@@ -219,10 +221,10 @@ Qed.
 Definition check_of (op : Z) : parser (list Z) :=
   if op =? 1 then check_marks else if op =? 2 then check_trav else if op =? 3 then check_scc else if op =? 4 then check_bigraph
   else if op =? 5 then check_equal else if op =? 6 then check_simplify else if op =? 7 then check_keep else if op =? 8 then check_remove
-  else if op =? 9 then check_dotstring else if op =? 10 then check_sprint else pfail.
+  else if op =? 9 then check_dotstring else if op =? 10 then check_sprint else if op =? 11 then check_hist else pfail.
 
 Lemma check_C18_dispatch : forall line c tag pos diag, check_C18 line = verdict c tag pos diag -> c = 0 \/ c = 1 ->
-  exists op rest r, line = 18 :: op :: rest /\ 1 <= op <= 10 /\ check_of op rest = Some (verdict c tag pos diag, r).
+  exists op rest r, line = 18 :: op :: rest /\ 1 <= op <= 11 /\ check_of op rest = Some (verdict c tag pos diag, r).
 Proof.
   intros line c tag pos diag H Hc. unfold check_C18 in H.
   destruct line as [|z line]; [rejected H|].
